@@ -280,79 +280,138 @@ Section Executor.
 Variable s : sset.
 Variable cache : world.
 
-(* the claims of the pod's ordinal are in the cache: createPersistentVolumeClaims has nothing to create *)
-Definition claims_cached (ord : Z) : Prop :=
-  forall t, In t (s_claims s) -> smemb (claim_name t (s_name s) ord) (w_claims cache) = true.
+(* the claims createPersistentVolumeClaims has to create for an ordinal: those the cache does not know *)
+Definition missing_of (ts : list string) (ord : Z) : list string :=
+  filter (fun n => negb (smemb n (w_claims cache))) (map (fun t => claim_name t (s_name s) ord) ts).
+Definition missing (ord : Z) : list string := missing_of (s_claims s) ord.
 
-Lemma create_claims_cached w ord : forall ts failed,
-  (forall t, In t ts -> smemb (claim_name t (s_name s) ord) (w_claims cache) = true) ->
-  reads w (create_claims s cache ord ts failed) failed.
+Definition upd_world (w : world) (L : list pod) (C : list string) : world := with_claims (with_pods w L) C.
+
+Lemma smemb_not_in n l : ~ In n l -> smemb n l = false.
 Proof.
-  induction ts as [|t rest IH]; intros failed H; cbn [create_claims]; [apply reads_ret|].
-  rewrite (H t (or_introl eq_refl)). apply IH. intros u Hu. apply H. right. exact Hu.
-Qed.
-Lemma create_pvcs_cached w p : claims_cached (getOrdinal p) -> reads w (create_pvcs s cache p) tt.
-Proof.
-  intros H. unfold create_pvcs. eapply reads_bind; [apply create_claims_cached; exact H|]. apply reads_ret.
+  intros H. unfold smemb. destruct (existsb (String.eqb n) l) eqn:E; [|reflexivity].
+  apply existsb_exists in E. destruct E as (x & Hx & Ex). apply String.eqb_eq in Ex. subst x. contradiction.
 Qed.
 
-(* when does one action succeed, given the pods of the API state *)
-Definition okact (L : list pod) (a : act) : Prop :=
+(* the missing claims are created, in order, when none of them is in the API state yet *)
+Lemma create_claims_new ord : forall ts failed w,
+  NoDup (missing_of ts ord) -> (forall n, In n (missing_of ts ord) -> ~ In n (w_claims w)) ->
+  hoare (fun x => x = w) (create_claims s cache ord ts failed)
+        (fun v x => v = failed /\ x = with_claims w (w_claims w ++ missing_of ts ord)).
+Proof.
+  induction ts as [|t rest IH]; intros failed w Hnd Hdis; cbn [create_claims].
+  - intros st HP Hf. exists failed, st. split; [reflexivity|]. split; [exact Hf|]. split; [reflexivity|].
+    cbv beta in HP. rewrite HP. unfold missing_of. cbn [map filter]. rewrite app_nil_r. destruct w; reflexivity.
+  - unfold missing_of in *. cbn [map filter] in *.
+    destruct (smemb (claim_name t (s_name s) ord) (w_claims cache)) eqn:M; cbn [negb] in *.
+    + apply IH; assumption.
+    + inversion Hnd as [|? ? Hnotin Hnd']; subst.
+      set (n := claim_name t (s_name s) ord) in *.
+      assert (Hn : smemb n (w_claims w) = false) by (apply smemb_not_in; apply Hdis; left; reflexivity).
+      intros st HP Hf. cbv beta in HP.
+      set (w1 := with_claims w (w_claims w ++ [n])).
+      assert (Hdis1 : forall m, In m (filter (fun x => negb (smemb x (w_claims cache))) (map (fun t0 => claim_name t0 (s_name s) ord) rest)) -> ~ In m (w_claims w1)).
+      { intros m Hm Hin. unfold w1 in Hin. cbn [with_claims w_claims] in Hin. apply in_app_or in Hin. destruct Hin as [Hin|[<-|[]]].
+        - apply (Hdis m); [right; exact Hm | exact Hin].
+        - contradiction. }
+      destruct (IH failed w1 Hnd' Hdis1 {| rs_api := w1; rs_log := (CCreateClaim n, None) :: rs_log st; rs_n := S (rs_n st); rs_faults := [] |} eq_refl eq_refl)
+        as (v & st' & E & F & (-> & Ex)).
+      exists failed, st'. unfold bind, try, api_create_claim, call_api. rewrite Hf. cbn [take_fault]. rewrite HP, Hn. fold w1.
+      split; [exact E|]. split; [exact F|]. split; [reflexivity|]. rewrite Ex. unfold w1. cbn [with_claims w_claims].
+      rewrite <- app_assoc. reflexivity.
+Qed.
+
+Lemma create_pvcs_new w p :
+  NoDup (missing (getOrdinal p)) -> (forall n, In n (missing (getOrdinal p)) -> ~ In n (w_claims w)) ->
+  hoare (fun x => x = w) (create_pvcs s cache p) (fun _ x => x = with_claims w (w_claims w ++ missing (getOrdinal p))).
+Proof.
+  intros Hnd Hdis. unfold create_pvcs.
+  eapply hoare_bind; [apply (create_claims_new (getOrdinal p) (s_claims s) false w Hnd Hdis)|].
+  intros v. cbv beta. intros st [-> HP] Hf. exists tt, st. split; [reflexivity|]. split; [exact Hf | exact HP].
+Qed.
+
+(* the claims of the API state after the action succeeded *)
+Definition exec1c (C : list string) (a : act) : list string :=
   match a with
-  | ADelete p => look (p_name p) L <> None
-  | ACreate f => look (p_name f) L = None /\ claims_cached (getOrdinal f)
-  | AUpdate p => look (p_name (fixpod s p)) L <> None /\ (identityMatches s p && storageMatches s p) = false
-                 /\ claims_cached (getOrdinal (fixpod s p))
+  | ADelete _ => C
+  | ACreate f => C ++ missing (getOrdinal f)
+  | AUpdate p => if storageMatches s (if identityMatches s p then p else updateIdentity s p) then C
+                 else C ++ missing (getOrdinal (fixpod s p))
   end.
 
-Lemma exec_act_ok w a : okact (w_pods w) a ->
-  hoare (fun x => x = w) (exec_act s cache a) (fun _ x => x = with_pods w (exec1 s (w_pods w) a)).
+Definition claims_fresh (C : list string) (ord : Z) : Prop :=
+  NoDup (missing ord) /\ forall n, In n (missing ord) -> ~ In n C.
+
+(* when does one action succeed, given the pods and the claims of the API state *)
+Definition okact (L : list pod) (C : list string) (a : act) : Prop :=
+  match a with
+  | ADelete p => look (p_name p) L <> None
+  | ACreate f => look (p_name f) L = None /\ claims_fresh C (getOrdinal f)
+  | AUpdate p => look (p_name (fixpod s p)) L <> None /\ (identityMatches s p && storageMatches s p) = false
+                 /\ claims_fresh C (getOrdinal (fixpod s p))
+  end.
+
+Lemma exec_act_ok w a : okact (w_pods w) (w_claims w) a ->
+  hoare (fun x => x = w) (exec_act s cache a)
+        (fun _ x => x = upd_world w (exec1 s (w_pods w) a) (exec1c (w_claims w) a)).
 Proof.
-  intros Hok. destruct a as [f|p|p]; cbn [exec_act okact exec1] in *.
-  - destruct Hok as [Hn Hc]. unfold create_stateful_pod.
-    apply (hoare_bind _ _ _ (fun _ x => x = w)).
-    + eapply hoare_conseq; [| |apply (hoare_reads w _ tt (fun _ => True)); apply create_pvcs_cached; exact Hc].
-      * intros x ->. split; [reflexivity | exact I].
-      * intros v x (_ & -> & _). reflexivity.
-    + intros _. unfold api_create_pod. apply hoare_call. intros x ->. unfold look in Hn. rewrite Hn.
-      eexists. eexists. split; [reflexivity|]. unfold pend. reflexivity.
+  intros Hok. destruct a as [f|p|p]; cbn [exec_act okact exec1 exec1c] in *.
+  - destruct Hok as [Hn [Hc1 Hc2]]. unfold create_stateful_pod.
+    eapply hoare_bind; [apply (create_pvcs_new w f Hc1 Hc2)|]. intros u. cbv beta.
+    unfold api_create_pod. apply hoare_call. intros x ->. cbn [with_claims w_pods]. unfold look in Hn. rewrite Hn.
+    eexists. eexists. split; [reflexivity|]. unfold pend, upd_world. reflexivity.
   - unfold api_delete_pod. apply hoare_call. intros x ->. unfold look in Hok.
     destruct (find_pod (p_name p) (w_pods w)) as [q|]; [|congruence].
-    destruct (isFailed q || isSucceeded q); eexists; eexists; split; reflexivity.
-  - destruct Hok as (Hn & Hm & Hc). cbn [update_stateful_pod].
-    change (if identityMatches s p then p else updateIdentity s p) with (if identityMatches s p then p else updateIdentity s p).
+    destruct (isFailed q || isSucceeded q); eexists; eexists; (split; [reflexivity|]); unfold upd_world; destruct w; reflexivity.
+  - destruct Hok as (Hn & Hm & [Hc1 Hc2]). cbn [update_stateful_pod].
     set (p1 := if identityMatches s p then p else updateIdentity s p).
     assert (E2 : (if storageMatches s p1 then p1 else updateStorage s p1) = fixpod s p) by reflexivity.
     rewrite E2.
     assert (Hcond : (identityMatches s p && storageMatches s p1) = false).
     { unfold p1. destruct (identityMatches s p); [exact Hm | reflexivity]. }
     rewrite Hcond.
-    apply (hoare_bind _ _ _ (fun _ x => x = w)).
-    + destruct (storageMatches s p1).
-      * intros st HP Hf. exists tt, st. repeat split; assumption.
-      * eapply hoare_conseq; [| |apply (hoare_reads w _ tt (fun _ => True)); apply create_pvcs_cached; exact Hc].
-        -- intros x ->. split; [reflexivity | exact I].
-        -- intros v x (_ & -> & _). reflexivity.
-    + intros _. apply (hoare_bind _ _ _ (fun r x => r = inl tt /\ x = with_pods w (replace_pod (fixpod s p) (w_pods w)))).
-      * intros st HP Hf. unfold try, api_update_pod, call_api. rewrite Hf. cbn [take_fault]. rewrite HP.
+    set (C' := if storageMatches s p1 then w_claims w else w_claims w ++ missing (getOrdinal (fixpod s p))).
+    apply (hoare_bind _ _ _ (fun _ x => x = with_claims w C')).
+    + unfold C'. destruct (storageMatches s p1).
+      * intros st HP Hf. exists tt, st. split; [reflexivity|]. split; [exact Hf|]. cbv beta in HP. rewrite HP. destruct w; reflexivity.
+      * apply (create_pvcs_new w (fixpod s p) Hc1 Hc2).
+    + intros u. apply (hoare_bind _ _ _ (fun r x => r = inl tt /\ x = upd_world w (replace_pod (fixpod s p) (w_pods w)) C')).
+      * intros st HP Hf. unfold try, api_update_pod, call_api. rewrite Hf. cbn [take_fault]. rewrite HP. cbn [with_claims w_pods].
         unfold look in Hn. destruct (find_pod (p_name (fixpod s p)) (w_pods w)); [|congruence].
         eexists. eexists. split; [reflexivity|]. cbn [rs_faults rs_api]. repeat split.
-      * intros r. intros st [-> HP] Hf. exists tt, st. repeat split; assumption.
+      * intros r0. intros st [-> HP] Hf. exists tt, st. split; [reflexivity|]. split; [exact Hf | exact HP].
 Qed.
 
-Fixpoint all_ok (L : list pod) (acts : list act) : Prop :=
-  match acts with [] => True | a :: t => okact L a /\ all_ok (exec1 s L a) t end.
+Fixpoint all_ok (L : list pod) (C : list string) (acts : list act) : Prop :=
+  match acts with [] => True | a :: t => okact L C a /\ all_ok (exec1 s L a) (exec1c C a) t end.
 
-Lemma exec_acts_ok : forall acts w, all_ok (w_pods w) acts ->
-  hoare (fun x => x = w) (forM acts (exec_act s cache)) (fun _ x => x = with_pods w (fold_left (exec1 s) acts (w_pods w))).
+Lemma exec_acts_ok : forall acts w, all_ok (w_pods w) (w_claims w) acts ->
+  hoare (fun x => x = w) (forM acts (exec_act s cache))
+        (fun _ x => x = upd_world w (fold_left (exec1 s) acts (w_pods w)) (fold_left exec1c acts (w_claims w))).
 Proof.
   induction acts as [|a t IH]; intros w H; cbn [forM fold_left all_ok] in *.
-  - intros st HP Hf. exists tt, st. split; [reflexivity|]. split; [exact Hf|]. cbv beta. cbv beta in HP. rewrite HP. unfold with_pods. destruct w; reflexivity.
+  - intros st HP Hf. exists tt, st. split; [reflexivity|]. split; [exact Hf|]. cbv beta. cbv beta in HP. rewrite HP. unfold upd_world. destruct w; reflexivity.
   - destruct H as [H1 H2]. eapply hoare_bind; [apply exec_act_ok; exact H1|]. intros u. cbv beta.
-    eapply hoare_conseq; [| |apply (IH (with_pods w (exec1 s (w_pods w) a)))].
+    eapply hoare_conseq; [| |apply (IH (upd_world w (exec1 s (w_pods w) a) (exec1c (w_claims w) a)))].
     + intros x Hx. exact Hx.
     + intros v x ->. reflexivity.
     + exact H2.
+Qed.
+
+(* a claim of the API state after the actions was there before, or is a missing claim of an ordinal an action named *)
+Definition claim_ord (a : act) : option Z :=
+  match a with ADelete _ => None | ACreate f => Some (getOrdinal f) | AUpdate p => Some (getOrdinal (fixpod s p)) end.
+Lemma exec1c_in : forall acts C n, In n (fold_left exec1c acts C) ->
+  In n C \/ exists a j, In a acts /\ claim_ord a = Some j /\ In n (missing j).
+Proof.
+  induction acts as [|a t IH]; intros C n H; cbn [fold_left] in H; [left; exact H|].
+  destruct (IH _ _ H) as [Hc|(a' & j & Ha' & Hj & Hn)].
+  - destruct a as [f|p|p]; cbn [exec1c] in Hc.
+    + apply in_app_or in Hc. destruct Hc as [Hc|Hc]; [left; exact Hc|]. right. exists (ACreate f), (getOrdinal f). repeat split; [left; reflexivity | exact Hc].
+    + left. exact Hc.
+    + destruct (storageMatches s _); [left; exact Hc|]. apply in_app_or in Hc. destruct Hc as [Hc|Hc]; [left; exact Hc|].
+      right. exists (AUpdate p), (getOrdinal (fixpod s p)). repeat split; [left; reflexivity | exact Hc].
+  - right. exists a', j. repeat split; [right; exact Ha' | exact Hj | exact Hn].
 Qed.
 
 End Executor.
